@@ -586,7 +586,7 @@ func init() {
 		Rule: "3/4 of the cases: a random program over the names x,y,z whose operations are emitted twice — Let/Set/SetOrLet/LetGlobal/Resolve/Context/YieldBlock called from jet.Funcs versus :=, =, identifiers, '.', {{yield b() ctx}} — nested up to 3 deep in if, range (2 iterations), block definitions, included templates (with/without context), try, and below blocks yielded with content (YieldBlock of a block that renders 'yield content'); " +
 			"every list first opens its scope so Let and := agree; Set on an undeclared name must fail in both forms; LetGlobal'd names are printed right after the call, after the enclosing constructs ended and at the end of the template; block bodies log each rendering; " +
 			"1/4: call shapes (plain, piped, slot at every index) with 1-3 arguments given to a reflected function and to jet.Funcs reading Get(i), NumOfArguments, IsSet(-1..n) and ParseInto: values and positions must match what the reflected function receives, incl. IsSet with an unknown identifier next to a slot; " +
-			"non-trivial = >=3 API features/contexts in one twin, or any argument shape; distinct by feature set / argument list",
+			"non-trivial = >=3 API features/contexts in one twin, or any argument shape; distinct by feature set / argument list Since wave 8: six directed LetGlobal cases with the name declared in an inner scope (expected rendering spelt out).",
 		Assumptions: []string{"Let twins only where the enclosing list has already opened a scope (DESIGN 2.4)", "blocks yielded through YieldBlock have no parameters"},
 		NCases:      c18n,
 		RunCase:     c18run,
